@@ -247,6 +247,7 @@ C12_CFG = dict(
     nt="variants",
     # realistic definitions with XID classes legitimately need ~1e7-1e8 steps (quadratic range-map inserts)
     step_budget=1000000000,
+    quick_scale=1.0,
     parts=[("multi", "multi", 60, 600, 6, TINY, TINY_T),
            ("bigclass", "base", 60, 800, 10, TINY, TINY_T),
            ("rctx", "base", 60, 800, 20, TINY, TINY_T),
